@@ -33,3 +33,10 @@ claim("C10", "model_checking",
       "evaluate the C10 formulas on each recorded experiment.",
       "Trusted: SIGKILL models the crash (no torn pages / power loss); SQLite durability; the hook points of commit 377f5cc are the linearisation points; private TMPDIR so the stale advisory lock expires.",
       "3 C10")
+claim("C06", "model_checking",
+      "TLA+ model of the migration directory and its sum file (DirSum.tla) checked by TLC; all bounded behaviours replayed on a real LocalDir; byte-neighbourhood observations validated by TLC against the reference outcome (DirSumTrace.tla)",
+      "TLC checks WritersValid / TamperDetected / NeutralKeeps on every behaviour of DirSum.tla up to depth 5 (6 thorough) and exports every behaviour of depth 3 (4) with the expected Validate outcome after "
+      "each step; all are replayed on a real LocalDir (writers through Planner.WritePlan / WriteSumFile, MemDir copies). In the other direction every single-byte edit (flip/delete/insert, one-byte moves in "
+      "atlas.sum, file add/remove/rename) of small concrete directories is abstracted by independent parsers and TLC evaluates the reference outcome on it. CLI writers (hash/new/diff/import) are checked to leave a valid directory.",
+      "Trusted: SHA-256 injective; the harness's parsers of atlas.sum and of the `atlas:sum ignore` rule; ignored-file contents and trailing ignored files are documented blind spots.",
+      "3 C06")
